@@ -1,13 +1,13 @@
 import Qats.Model.Dist
 import Qats.Lemmas.RealOps
-import Qats.Lemmas.DistOps
+import Qats.Lemmas.WbOps
 import Qats.Lemmas.W2GOps
 import Mathlib.Tactic
 /-!
 Main lemmas behind the C17 property theorems (statements fixed by `Qats/Props/C17.lean`).
 All over ℝ, about the generated formulas `Qats.Gen.w2g_*`, `wfw_*` and their relation to `wb_invcdf`, `wb_pdf`.
 The generated formulas are only ever accessed through the restating lemmas `*_eq` of `Qats/Lemmas/W2GOps.lean`
-(and `wb_invcdf_eq`, `wb_pdf_eq` of `Qats/Lemmas/DistOps.lean`).
+(and `wb_invcdf_eq`, `wb_pdf_eq` of `Qats/Lemmas/WbOps.lean`).
 -/
 namespace Qats.Dist
 open Qats Qats.Gen
